@@ -101,6 +101,14 @@ def c03_cells(tier="quick"):
                     cells.append((f"ScheduleN.{mode}.{tag}.n{n}.{nm}", base(H, mk(), constraints=[
                         {"id": "c", "kind": "ScheduleNTasksInTimeIntervals", "tasks": ["t0", "t1"], "n": n,
                          "intervals": ivs, "mode": mode}])))
+    # values given as expressions over other tasks' unknowns (the library accepts z3 terms for `value`)
+    for tag, mk in pairs[:3]:
+        cells.append((f"TaskStartAt.expr.{tag}", base(H, mk(), constraints=[
+            {"id": "c", "kind": "TaskStartAt", "task": "t1", "value": ["+", ["end", "t0"], 1]}])))
+        cells.append((f"TaskEndBefore.expr.{tag}", base(H, mk(), constraints=[
+            {"id": "c", "kind": "TaskEndBefore", "task": "t0", "value": ["-", ["start", "t1"], 1], "mode": "strict"}])))
+        cells.append((f"TaskStartAfter.expr.{tag}", base(H, mk(), constraints=[
+            {"id": "c", "kind": "TaskStartAfter", "task": "t1", "value": ["*", ["start", "t0"], 2], "mode": "lax"}])))
     # a single listed task
     for mode in ("exact", "min", "max"):
         for n in (0, 1):
